@@ -466,7 +466,8 @@ func borderImageWidth(_ *ComputedStyle, _ pr.KnownProp, _value pr.CssProperty) p
 
 // Compute the “border-image-outset“ property.
 func borderImageOutset(computer *ComputedStyle, _ pr.KnownProp, _value pr.CssProperty) pr.CssProperty {
-	values := _value.(pr.Values)
+	// compute on a copy: the declared value is shared by every element the declaration applies to
+	values := append(pr.Values(nil), _value.(pr.Values)...)
 	for i, value := range values {
 		if value.Unit == pr.Scalar {
 			values[i] = value
@@ -827,7 +828,8 @@ func gridTemplate(computer *ComputedStyle, _ pr.KnownProp, _value pr.CssProperty
 
 // Compute the “grid-auto-*“ properties.
 func gridAuto(computer *ComputedStyle, _ pr.KnownProp, _value pr.CssProperty) pr.CssProperty {
-	values := _value.(pr.GridAuto)
+	// compute on a copy: the declared value is shared by every element the declaration applies to
+	values := append(pr.GridAuto(nil), _value.(pr.GridAuto)...)
 	for i, value := range values {
 		values[i] = computeGridDims(computer, value)
 	}
